@@ -101,9 +101,9 @@ def main():
             return {'type': 'date', 'value': v.isoformat()}
         if isinstance(v, bytes):
             return {'type': 'bytes', 'value': v.hex()}
-        if isinstance(v, (list, tuple)) and depth < 6:
+        if isinstance(v, (list, tuple)) and depth < 16:
             return {'type': t, 'value': [enc(x, depth + 1) for x in v]}
-        if isinstance(v, dict) and depth < 6:
+        if isinstance(v, dict) and depth < 16:
             return {'type': t, 'value': [[enc(k, depth + 1), enc(x, depth + 1)] for k, x in v.items()]}
         if isinstance(v, types.ModuleType):
             return {'type': 'module', 'value': v.__name__}
